@@ -139,9 +139,9 @@ public:
     ///
     Index num_iterations() const { return niter_; }
 
-    Vector eigenvalues() const { return m_ritz_pairs.ritz_values().head(m_number_eigenvalues); }
+    Vector eigenvalues() const { return m_ritz_pairs.ritz_values().head((std::min)(m_number_eigenvalues, m_ritz_pairs.size())); }
 
-    Matrix eigenvectors() const { return m_ritz_pairs.ritz_vectors().leftCols(m_number_eigenvalues); }
+    Matrix eigenvectors() const { return m_ritz_pairs.ritz_vectors().leftCols((std::min)(m_number_eigenvalues, m_ritz_pairs.size())); }
 
     Index compute(SortRule selection = SortRule::LargestMagn, Index maxit = 100,
                   Scalar tol = 100 * Eigen::NumTraits<Scalar>::dummy_precision())
@@ -158,6 +158,10 @@ public:
 
     {
         m_search_space.initialize_search_space(initial_space);
+        // The status and the Ritz pairs describe this call only: if the iteration
+        // is not entered (maxit <= 0), nothing has been computed
+        m_info = CompInfo::NotConverging;
+        m_ritz_pairs = RitzPairs<Scalar>();
         niter_ = 0;
         for (niter_ = 0; niter_ < maxit; niter_++)
         {
@@ -194,6 +198,8 @@ public:
 
             m_search_space.extend_basis(corr_vect);
         }
+        if (m_ritz_pairs.size() < m_number_eigenvalues)
+            return 0;
         return (m_ritz_pairs.converged_eigenvalues()).template cast<Index>().head(m_number_eigenvalues).sum();
     }
 };
